@@ -116,10 +116,9 @@ func alphabet(backend string) []Op {
 		{K: "Advance", N: 3},
 		{K: "Advance", N: 2000},
 	}
-	if backend == "inmem" {
-		// an expiry that already lies in the past when written (miniredis would keep such a key for ever, real Redis for 1 ms)
-		a = append(a, Op{K: "Put", Key: "a", Val: 2, Exp: -1})
-	}
+	// an expiry that already lies in the past when written (real Redis keeps such a key for 1 ms: the backend view
+	// lets 5 ms of the server clock pass after such a write) and "never" expiries (year 2300 / 9999)
+	a = append(a, Op{K: "Put", Key: "a", Val: 2, Exp: -1}, Op{K: "Put", Key: "a", Val: 1, Exp: kvmodel.Never2}, Op{K: "Create", Key: "b", Val: 2, Exp: kvmodel.Never1})
 	return a
 }
 
@@ -132,6 +131,9 @@ func matrix(backend string) []kase {
 		{{K: "PutMany", Keys: []string{"a", "b", "a"}, Val: 2, Exps: []int{0, 3, 1}}},
 		{{K: "Put", Key: "a", Val: 1}, {K: "Cas", Key: "a", Val: 2, Ver: "cur", Exp: 1}},
 		{{K: "Put", Key: "a", Val: 1}, {K: "Put", Key: "a", Val: 3, Exp: 2}, {K: "Advance", N: 1}},
+		{{K: "Put", Key: "a", Val: 2, Exp: kvmodel.Never2}},
+		{{K: "Create", Key: "a", Val: 2, Exp: kvmodel.Never1}},
+		{{K: "Put", Key: "a", Val: 1}, {K: "Put", Key: "a", Val: 3, Exp: -1}},
 	}
 	unrelated := [][]Op{
 		{},
@@ -208,7 +210,7 @@ func TestCheck(t *testing.T) {
 		run.Note("first_touch_of_an_expired_key_by_operation", sh.firstTouch)
 		run.Finish(t)
 	})
-	run.Rule("(i) first-toucher matrix: 6 ways to write a short-lived record x 4 unrelated interludes x 3 clock advances x 17 first touchers x 9 second touchers; (ii) 1-3 waiters parked while the record is alive, 0..n-1 of them (the earliest) give up, clock advanced past the expiry; (iii)/(iv) every sequence over 23-24 operation instances (writes with short/long/no/past expiry on 2 keys, all readers, Advance 1/3/2000 units) to the depth bound plus seeded random sequences; each followed by a full observation (Get, GetMany, ListKeys, Create); (v) inmem on the real clock: a record without expiry is written right at the expiry of its predecessor while waiters are parked on it and a long ListKeys keeps the lock busy - it must survive. Compared call by call with the contract model with a logical clock. distinct = distinct logical store states (presence, value, remaining lifetime, last write) reached")
+	run.Rule("(i) first-toucher matrix: 9 ways to write a short-lived, already expired or never expiring (year 2300 / 9999) record x 4 unrelated interludes x 3 clock advances x 17 first touchers x 9 second touchers; (ii) 1-3 waiters parked while the record is alive, 0..n-1 of them (the earliest) give up, clock advanced past the expiry; (iii)/(iv) every sequence over 26 operation instances (writes with short/long/no/past/never expiry on 2 keys; Redis: the server-side time to live of every written key is compared with the given expiry, all readers, Advance 1/3/2000 units) to the depth bound plus seeded random sequences; each followed by a full observation (Get, GetMany, ListKeys, Create); (v) inmem on the real clock: a record without expiry is written right at the expiry of its predecessor while waiters are parked on it and a long ListKeys keeps the lock busy - it must survive. Compared call by call with the contract model with a logical clock. distinct = distinct logical store states (presence, value, remaining lifetime, last write) reached")
 	run.Assume("expirations lie at half clock units and the clock moves in whole units, so the exact expiry instant is never sampled")
 	run.Assume("inmem: testing/synctest virtual clock; Redis: miniredis, whose clock is the sum of FastForward calls")
 
@@ -457,10 +459,10 @@ func randomCase(backend string, seed int64, i int) kase {
 		case 4:
 			return 1000
 		default:
-			if backend == "inmem" {
-				return -1 - rng.Intn(2)
+			if rng.Intn(3) == 0 {
+				return kvmodel.Never1 + rng.Intn(2)
 			}
-			return 1
+			return -1 - rng.Intn(2)
 		}
 	}
 	k := kase{Backend: backend, Kind: "random"}
